@@ -7,6 +7,8 @@ import sys
 from lib import common as C
 from lib import xhrun
 
+from . import contract
+
 sys.path.insert(0, os.path.join(C.VERIF, "xh"))
 
 STUBS = [
@@ -124,8 +126,10 @@ def main(pid):
                                  "then the real run: outputs/stored values computed from normalised reads, event order w<r<consumer")
     else:
         raise SystemExit(f"no check for {pid}")
+    fut = contract.start(pid)
     results = xhrun.run_conditions(pid, conds)
     code = xhrun.summarize(pid, results, ev)
+    code = contract.finish(pid, fut, ev, code)
     cov = ev.coverage
     cov["explanation"] = ("bounded symbolic execution of the real uberjob code: CrossHair enumerates every feasible path of the harness for the "
                           "given shape and z3 discharges each path condition ('Confirmed over all paths'); symbolic values (times, flags) are "
